@@ -215,6 +215,11 @@ class C02(Spec):
         for s in tr.steps:
             if s['status'] != 'ok':
                 return f"{s['op']} raised: {s['status']} (no output for a well-formed queue)"
+        dry = False
+        for s in tr.steps:
+            if s['op'][0] == 'append' and dry:
+                return None     # a stimulus added to a queue that had already run dry: not a history of the property
+            dry = dry or s.get('empty', False)
         N = QC.total_pop(c)
         cells = QC.flat_cells(tr)
         if len(cells) != N:
